@@ -27,6 +27,9 @@
                                                                            offset_by_identifier,
                                                                            popularity_vocabulary_order_irrelevant,
                                                                            popularity_by_identifier
+   * "the bias score of an item for a user ..." / "unknown items left unscored" for item lists that carry a
+     vocabulary of their own (another split, the same items in another order, a superset; of the same
+     length as the training vocabulary or not)                           -> list_vocabulary_irrelevant
    Standing conventions: Q division by zero is 0, so `global_mean []` is 0 where numpy gives NaN (the
    statements about learn are meant for a non-empty rating set, which the generator always supplies);
    damping is non-negative where a hypothesis says so (BiasConfig enforces it). *)
@@ -181,6 +184,21 @@ Theorem popularity_by_identifier : forall (items : vocab) v counts,
 Proof. exact pop_by_identifier_l. Qed.
 Print Assumptions popularity_by_identifier.
 
+(* an item list (scored items, rated history) numbered against a vocabulary of its own is scored through
+   the identifiers it stands for: the numbers of the training vocabulary are those of the identifiers, the
+   popularity / bias scores are those of the same identifiers given directly.  Neither the length of the
+   list's vocabulary nor the list's own numbers play any part. *)
+Theorem list_vocabulary_irrelevant : forall (items : vocab) l its, denotes l its ->
+  ilist_numbers items l = map (number items) its /\
+  (forall sc, pop_call_list items sc l = pop_call_ids items sc its) /\
+  (forall m d users qu, bias_scores_list m d users items qu None l
+     = bias_scores_ids m d users items {| iq_user := qu; iq_hist := None |} its) /\
+  (forall m d users qu hl hits hr, denotes hl hits ->
+     bias_scores_list m d users items qu (Some (hl, hr)) l
+     = bias_scores_ids m d users items {| iq_user := qu; iq_hist := Some (combine hits hr) |} its).
+Proof. exact list_vocabulary_irrelevant_l. Qed.
+Print Assumptions list_vocabulary_irrelevant.
+
 (* non-vacuity: 3 users x 3 items (item 2 and user 2 without ratings), damping 1/2 for users and 0 for
    items; the offsets are the hand-computed ones; a history with an unknown item; two tied counts whose
    cumulative shares may come in either order, and a wrong assignment that the checker rejects *)
@@ -203,14 +221,25 @@ Example c08_nonvacuous :
    user_off m d (resolve_query users items {| iq_user := Some 0%Z; iq_hist := None |}) == - (1) /\
    sort_index (combine items [Some 1; Some 2; Some 0]) = [((-2)%Z, Some 2); (0%Z, Some 0); (5%Z, Some 1)] /\
    pop_train_ids items VCount [1; 2; 0]%nat = [Some 1; Some 2; Some 0] /\
-   pop_call_ids items (pop_train_ids items VCount [1; 2; 0]%nat) [0; 9; -2]%Z = [Some 0; None; Some 2]).
+   pop_call_ids items (pop_train_ids items VCount [1; 2; 0]%nat) [0; 9; -2]%Z = [Some 0; None; Some 2] /\
+   (* a list numbered against another vocabulary of the SAME length (item 5 replaced by the unknown 9, other
+      order): scored through its identifiers, not through its own numbers 0, 1, 2 *)
+   (let own : vocab := [0; 9; -2]%Z in
+    denotes (ByNums own [0; 1; 2]%nat) [0; 9; -2]%Z /\ length own = length items /\
+    pop_call_list items [Some 1; Some 2; Some 0] (ByNums own [0; 1; 2]%nat) = [Some 0; None; Some 2] /\
+    pop_call [Some 1; Some 2; Some 0] [Some 0; Some 1; Some 2]%nat = [Some 1; Some 2; Some 0])) /\
+  (* a stored rating of exactly 0 counts in the mean: (0 + 1) / 2 *)
+  b_global (learn 1 2 [(0%nat, 0%nat, 0); (0%nat, 1%nat, 1)] d true true) == 1 # 2.
 Proof.
   cbv zeta. split; [vm_compute; reflexivity|].
   split; [eexists; split; [reflexivity|]; vm_compute; intuition discriminate|].
   split; [eexists; split; [reflexivity|]; vm_compute; intuition discriminate|].
   split; [vm_compute; reflexivity|].
   do 5 (split; [vm_compute; reflexivity|]).
+  split; [|vm_compute; reflexivity].
   split; [repeat constructor; cbn; intuition discriminate|].
   split; [repeat constructor; cbn; intuition discriminate|].
+  do 6 (split; [vm_compute; reflexivity|]).
+  split; [repeat constructor|].
   repeat split; vm_compute; reflexivity.
 Qed.
